@@ -83,9 +83,24 @@ def recMatches (w : World) (R : Record) : Prop :=
   ∃ P, w.pair R.pair = some P ∧ P.a0 = R.a0 ∧ P.a1 = R.a1 ∧ P.d0 = R.d0 ∧ P.d1 = R.d1 ∧ P.lp = R.lp ∧
     P.comm = R.comm ∧ P.req = R.req ∧ P.factory = w.facAddr
 
-/-- environment: distinct assets have distinct raw identifiers, shorter than 2^32 bytes -/
+/-- a live asset: a registered native denom or a live cw20 contract — exactly the assets for which the factory's
+decimals query `assetDecimals` succeeds (`Halo.RegOKP.live_iff_decimals`), hence the only assets a pair can be
+created over -/
+def Live (w : World) (a : Asset) : Prop :=
+  match a with
+  | .native d => (w.denoms d).isSome
+  | .token t => (w.tok t).isSome
+
+instance (w : World) (a : Asset) : Decidable (Live w a) :=
+  match a with
+  | .native d => inferInstanceAs (Decidable ((w.denoms d).isSome = true))
+  | .token t => inferInstanceAs (Decidable ((w.tok t).isSome = true))
+
+/-- environment: distinct LIVE assets have distinct raw identifiers; raw identifiers are shorter than 2^32 bytes.
+Nothing is assumed about identifiers that are not live: another spelling of a token address (upper case) is a
+different `Asset.token` with the same raw identifier as the live contract, and is not a contract itself. -/
 structure RawOK (w : World) : Prop where
-  inj : ∀ a b, w.rawId a = w.rawId b → a = b
+  inj : ∀ a b, Live w a → Live w b → w.rawId a = w.rawId b → a = b
   short : ∀ a, (w.rawId a).length < 2 ^ 32
 
 structure RegOK (w : World) : Prop where
@@ -101,6 +116,9 @@ structure RegOK (w : World) : Prop where
   distinctAssets : ∀ e ∈ w.registry, e.2.a0 ≠ e.2.a1
   /-- native assets of registered pairs are registered denoms -/
   denomsKnown : ∀ e ∈ w.registry, ∀ d, (e.2.a0 = .native d ∨ e.2.a1 = .native d) → (w.denoms d).isSome
+  /-- both assets of a registered pair are live (the factory queried their decimals at creation, and liveness is
+  never revoked); subsumes `denomsKnown` -/
+  live : ∀ e ∈ w.registry, Live w e.2.a0 ∧ Live w e.2.a1
 
 /-! ### C03: share value -/
 
